@@ -21,7 +21,9 @@ RULE = ("ices {Antarctic, Arasim, Greenland, random (n0,k,a)} x endpoint pairs d
         "(shallow/shallow, deep/deep, across z_uniform, near-vertical incl. the K3 region, exactly vertical pairs "
         "(rho == 0, both orders), an endpoint exactly on the top / bottom of the valid range or on z_uniform, equal "
         "depths, within 1% of direct_r_max / indirect_r_max, source above / below receiver) x dz in {0.1,1,5} x "
-        "{SpecializedRayTracer, BasicRayTracer} x endpoint containers {tuple, list, float ndarray, int ndarray} x "
+        "{SpecializedRayTracer, BasicRayTracer} x endpoint containers drawn independently for source and receiver from "
+        "{tuple, list, float ndarray (fractional values), int64 / int32 ndarray, tuple / list of Python ints (whole "
+        "values)} - mixed integer x fractional pairs included, the reference being the caller's own float copy x "
         "caller-side reuse of the endpoint buffers {none, overwritten in place right after construction, overwritten "
         "after `solutions` was read and before any path property is}; ices incl. a top of the valid range below 0 and "
         "non-default / None index_above, index_below; an endpoint outside the valid range (no solutions allowed); the "
@@ -295,7 +297,8 @@ def tracer_classes():
     return {"specialized": rt.SpecializedRayTracer, "basic": rt.BasicRayTracer}
 
 
-CONTAINERS = ["tuple", "ndarray", "ndarray", "list", "intarray"]
+CONTAINERS = ["tuple", "ndarray", "ndarray", "list", "intarray", "int32array", "inttuple", "intlist"]
+INT_KINDS = ("intarray", "int32array", "inttuple", "intlist")
 ALIAS_MODES = [None, "after_init", "after_solutions"]
 
 
@@ -303,7 +306,13 @@ def make_container(kind, P):
     if kind == "ndarray":
         return np.array(P, dtype=float)
     if kind == "intarray":
-        return np.array([int(round(v)) for v in P], dtype=int)
+        return np.array([int(round(v)) for v in P], dtype=np.int64)
+    if kind == "int32array":
+        return np.array([int(round(v)) for v in P], dtype=np.int32)
+    if kind == "inttuple":
+        return tuple(int(round(v)) for v in P)          # Python ints
+    if kind == "intlist":
+        return [int(round(v)) for v in P]
     if kind == "list":
         return [float(v) for v in P]
     return tuple(float(v) for v in P)
@@ -315,17 +324,22 @@ def scramble(buf, P):
     if isinstance(buf, tuple):
         return
     for i in range(3):
-        buf[i] = int(new[i]) if isinstance(buf, np.ndarray) and buf.dtype.kind == "i" else new[i]
+        is_int = (isinstance(buf, np.ndarray) and buf.dtype.kind == "i") or (isinstance(buf, list) and isinstance(buf[i], int))
+        buf[i] = int(new[i]) if is_int else new[i]
 
 
 def solve(tname, A, B, ice, dz, alias=None, container="tuple"):
     """run the implementation; -> (tracer, [paths], (from_buffer, to_buffer)).
-    `container`: how the endpoints are handed over (tuple / list / float ndarray / int ndarray);
+    `container`: how the endpoints are handed over - one kind for both or a pair (source kind, receiver kind)
+    out of tuple / list / float ndarray (fractional values) and int64 / int32 ndarray, tuple / list of Python
+    ints (the caller's values are then whole numbers); mixed pairs matter: a silent cast of one endpoint to
+    the other's dtype would truncate it;
     `alias`: None, or the moment at which the harness overwrites the caller-side buffers in place -
     'after_init' (before anything is evaluated) or 'after_solutions' (after `solutions` was read, before any
     path property is).  The tracer's answers must be those of the endpoints it was constructed with."""
     cls = tracer_classes()[tname]
-    bufs = (make_container(container, A), make_container(container, B))
+    kinds = tuple(container) if isinstance(container, (tuple, list)) else (container, container)
+    bufs = (make_container(kinds[0], A), make_container(kinds[1], B))
     t = cls(bufs[0], bufs[1], ice, dz=dz)
     if alias == "after_init":
         scramble(bufs[0], A)
@@ -360,10 +374,10 @@ def alias_check(run, inp0, t, sols, bufs, A, B, alias, container, ref):
             run.fail_input("aliasing", inp0, observed={"object": nm, "from_point": list(map(float, o.from_point)),
                                                        "to_point": list(map(float, o.to_point))},
                            expected={"from_point": list(A0), "to_point": list(B0)},
-                           what="%s no longer holds the endpoints it was constructed with after the caller "
-                                "overwrote its own %s buffers (%s)" % (nm, container, alias))
+                           what="%s does not hold the endpoints the caller passed in (float copy of the arguments; "
+                                "containers %s, caller-side overwrite: %s)" % (nm, container, alias))
             return False
-    if alias is None and container != "tuple" and bufs[0] is not None:
+    if alias is None and bufs[0] is not None and not (isinstance(bufs[0], tuple) and isinstance(bufs[1], tuple)):
         if not (np.array_equal(np.asarray(bufs[0], dtype=float), A0)
                 and np.array_equal(np.asarray(bufs[1], dtype=float), B0)):
             run.fail_input("caller-buffer-modified", inp0, observed=[list(map(float, b)) for b in bufs],
@@ -1604,23 +1618,32 @@ def search(run, deep):
                                what="tracer returns paths although an endpoint is outside the ice")
             continue
         # how the endpoints are handed over, and whether the caller recycles its buffers afterwards
-        container = run.rng.choice(CONTAINERS)
-        alias = run.rng.choice(ALIAS_MODES) if container != "tuple" else None
-        if container == "intarray":
+        # (source and receiver kinds are drawn independently: integer source x fractional receiver and the
+        # reverse included; an integer kind means the caller's values ARE whole numbers.  A, B below are the
+        # caller's own float copies of its arguments - the reference for every oracle)
+        container = (run.rng.choice(CONTAINERS), run.rng.choice(CONTAINERS))
+        if run.rng.random() < 0.35:
+            container = (container[0], container[0])
+        plain = container == ("tuple", "tuple")
+        alias = run.rng.choice(ALIAS_MODES) if not plain else None
+        if container[0] in INT_KINDS:
             A = tuple(float(int(round(v))) for v in A)
+        if container[1] in INT_KINDS:
             B = tuple(float(int(round(v))) for v in B)
+        if container[0] in INT_KINDS or container[1] in INT_KINDS:
             zf, zt = A[2], B[2]
             rho = math.hypot(B[0] - A[0], B[1] - A[1])
-        extra = {"container": container, "alias": alias}
+        extra = {"container": list(container), "alias": alias}
         inp0 = {"ice": ice_desc(name, ice), "from": list(map(float, A)), "to": list(map(float, B)),
                 "tracer": tname, "dz": dz, "class": cname}
         inp0.update(extra)
-        run.count("search_container_%s_alias_%s" % (container, alias))
+        run.count("search_container_%s+%s" % container)
+        run.count("search_alias_%s" % alias)
         try:
             t, sols, bufs = solve(tname, A, B, ice, dz, alias=alias, container=container)
             ref = None
-            if container != "tuple":
-                ref = solve(tname, A, B, ice, dz)[:2]
+            if not plain:
+                ref = solve(tname, A, B, ice, dz)[:2]      # float64 copies of the caller's arguments
         except Exception as e:
             if isinstance(e, (ValueError, OverflowError)) and crash_class(ice, zf, zt):
                 run.count("search_crash_class_%s" % type(e).__name__)
@@ -1925,12 +1948,15 @@ def replay(run, data):
         return
     A, B = tuple(inp["from"]), tuple(inp["to"])
     container, alias = inp.get("container", "tuple"), inp.get("alias")
+    if isinstance(container, list):
+        container = tuple(container)
     t, sols, bufs = solve(inp["tracer"], A, B, ice, inp["dz"], alias=alias, container=container)
-    ref = solve(inp["tracer"], A, B, ice, inp["dz"])[:2] if container != "tuple" else None
+    ref = solve(inp["tracer"], A, B, ice, inp["dz"])[:2] if container not in ("tuple", ("tuple", "tuple")) else None
     inp0 = {k: inp[k] for k in ("ice", "from", "to", "tracer", "dz", "class", "container", "alias") if k in inp}
     alias_check(run, inp0, t, sols, bufs, A, B, alias, container, ref)
     if ref is not None:
         t = ref[0]
     for p in sols:
         check_solution(run, inp["ice"][0], ice, inp.get("class", "replay"), A, B, inp["tracer"], inp["dz"], t, p, 0.25,
-                       extra={"container": container, "alias": alias})
+                       extra={"container": list(container) if isinstance(container, tuple) else container,
+                              "alias": alias})
